@@ -222,6 +222,14 @@ def parse_results(text):
     m = re.search(r"<design-matrix-graph>\s*(\w+)\s*</design-matrix-graph>", text)
     res["graph"] = m.group(1) if m else None
     res["rejected"] = text.count("<rejected>")
+    # the rejected observations: (tag, ids) in the order of the document
+    res["rejected_list"] = []
+    for blk in re.findall(r"<rejected>(.*?)</rejected>", text, re.S):
+        m = re.search(r"<(vector|distance|height-diff|height|xyz|angle|azimuth|zenith-angle)>(.*?)</\1>", blk, re.S)
+        if m:
+            res["rejected_list"].append((m.group(1), tuple(re.findall(r"<(?:from|to|id|left|right)>\s*(\S+?)\s*</(?:from|to|id|left|right)>", m.group(2)))))
+        else:
+            res["rejected_list"].append(("?", ()))
     for blk in re.findall(r"<point>(.*?)</point>", text, re.S):
         m = re.search(r"<id>\s*(\S+)\s*</id>", blk)
         if not m:
